@@ -103,4 +103,7 @@ VariantOrderTotal ==
   (phase = "sealed" /\ run = NoRun) =>
     \A u, v, w \in 1..NVariants(cfg) :
       (Disc(cfg, u) < Disc(cfg, v) /\ Disc(cfg, v) < Disc(cfg, w)) => Disc(cfg, u) < Disc(cfg, w)
+\* corpus-only exploration (used where only the configurations are wanted, not the run machine): states in which a
+\* run has begun are not expanded
+CorpusOnly == run = NoRun
 =============================================================================
